@@ -490,3 +490,56 @@ func execRuneSweep(e *env, op *Op, out *Outcome) {
 		out.Checks = append(out.Checks, "C11/written-output-lost#runesweep: "+b)
 	}
 }
+
+// ---- odd format strings ------------------------------------------------------
+//
+// "every format string is accepted and rendered": directives assembled
+// from a grammar of flags, argument indexes (0, too large, empty,
+// non-numeric, unterminated), widths and precisions (numbers, *, too
+// large) and verbs (ASCII, multi-byte, none at the very end), applied to
+// ints, floats and clean strings through every printf-style route. No
+// call may panic, and the literal text around the directives must come
+// out intact and in order. (The rendering of the directives themselves
+// is C04's business: redact forked an older fmt, whose bad-verb
+// reports differ in detail from today's.)
+
+func init() { opKinds["fmtsweep"] = execFmtSweep }
+
+func execFmtSweep(e *env, op *Op, out *Outcome) {
+	format := string(op.F)
+	routes := []struct {
+		name string
+		op   Op
+	}{
+		{"Sprintf", Op{K: "sprintf", F: op.F, A: op.A}},
+		{"Fprintf", Op{K: "fprintf", F: op.F, A: op.A, W: &WSpec{Kind: "ok"}}},
+		{"HelperForErrorf", Op{K: "errorf", F: op.F, A: op.A}},
+		{"StringBuilder.Printf", Op{K: "builder", S: []Step{{A: "pf", S: op.F, V: op.A}}}},
+		{"SafePrinter.Printf", Op{K: "sprintfn", S: []Step{{A: "pf", S: op.F, V: op.A}}}},
+	}
+	for _, r := range routes {
+		res := e.execOp(&r.op)
+		if r.name == "Sprintf" {
+			out.Out = res.Out
+		}
+		if res.Panic != "" {
+			out.Checks = append(out.Checks, fmt.Sprintf("C11/call-panicked#fmtsweep/%s: format %q: %s", r.name, format, res.Panic))
+			continue
+		}
+		// the literal text between the directives must come out, in order
+		got := redactableStrip(res.Out)
+		pos := 0
+		for i := range op.S {
+			lit := string(op.S[i].S)
+			k := strings.Index(got[pos:], lit)
+			if k < 0 {
+				out.Checks = append(out.Checks, fmt.Sprintf("C11/written-output-lost#fmtsweep/%s: format %q: literal %q (#%d) is missing from the output %q", r.name, format, lit, i, clip(got)))
+				break
+			}
+			pos += k + len(lit)
+		}
+	}
+	if e.t != nil {
+		e.stats.Extra["c11_odd_formats_checked"]++
+	}
+}
